@@ -118,8 +118,9 @@ def dom_job(dom, seq, mode="sound", budget=120, soft=False, what="", tier="quick
         args["mode"] = mode
     if any(b in seq for b in BITW_OPS) and "cr" not in args:
         args["cr"] = 16
+    # DOM=15: under known finding F35 every path of a history that widens a non-increasing pair ends at the widening
     return Job("dom", args, defines=("DOM=%d" % dom,), budget=budget, what=what or ("%s: %s" % (DOMS[dom][0], seq)), witnesses=1,
-               soft=soft, allow_vacuous=soft)
+               soft=soft, allow_vacuous=soft or (dom == 15 and "wid" in seq) or (dom in MACHINE_WEIGHT and tier == "thorough"))
 
 
 def hist_jobs(tier, seed, doms_full, doms_light, focus=None, ngen_quick=24, ngen_thorough=400, mode="sound"):
@@ -152,7 +153,7 @@ C03_LIGHT = [3, 4, 5, 6, 7, 8, 9, 10, 11, 12, 13, 14, 15, 16, 17, 18, 19, 20, 21
 
 
 def c03_jobs(tier, seed):
-    return hist_jobs(tier, seed, C03_FULL, C03_LIGHT)
+    return hist_jobs(tier, seed, C03_FULL, C03_LIGHT, ngen_quick=60)
 
 
 HIST_EXPL = ("Two abstract values are built from top by an operation history run on the REAL domain implementation; kinds of "
@@ -160,7 +161,7 @@ HIST_EXPL = ("Two abstract values are built from top by an operation history run
              "constant and bound left symbolic (<= 3-4 per history) is decided by the solver for all values.  A concrete state is carried along by the corresponding "
              "concrete operations; after every step z3 decides state in gamma_obs(value): !is_bottom, state[v] in at(v), every constraint of "
              "to_linear_constraint_system() holds - for both values, and every observation of the value not operated on is unchanged.")
-HIST_BOUNDS = {"quick": "2 program variables (+2 spare), histories of <= 8 operations from the core list on intervals and zones (bignum weights), every 3rd core history on 21 further domain configurations, 24 generated histories (seeded); <= 3 symbolic constants per history (unbounded, or +-6 for machine-weight DBMs, +-16 around bitwise ops); multiplicative/shift constants in +-3",
+HIST_BOUNDS = {"quick": "2 program variables (+2 spare), histories of <= 8 operations from the core list on intervals and zones (bignum weights), every 3rd core history on 21 further domain configurations, 24-60 generated histories (seeded); <= 3 symbolic constants per history (unbounded, or +-6 for machine-weight DBMs, +-16 around bitwise ops); multiplicative/shift constants in +-3",
                "thorough": "all core histories on all 25 domain configurations, 400 generated histories with <= 4 symbolic constants"}
 HIST_OUT = ["histories longer than 8 operations, more than 2+2 variables", "constants beyond the stated ranges for machine-weight DBM domains (int64 overflow is not explored)",
             "int_conv operations (crab's numerical domains treat casts as assignments of mathematical integers by design)", "third-party domains (Apron, Elina, Boxes/LDD, PPLite are not built in this tree)", "rationals"]
@@ -210,6 +211,8 @@ def c05_jobs(tier, seed):
         for (wd, di) in ((0, 0), (1, 2)) if tier == "quick" else ((0, 0), (1, 1), (2, 2), (1, 2)):
             for d in (1, 2):
                 J.append(fwd_job(d, pr, wd, di, 0, tier))
+    # known finding F35: the history on which the lookahead widening of a non-increasing pair shows
+    J.append(dom_job(15, "cst.le.-1.0.1.1:?,lb.0:?,cpy,asg2.0.1.0.1.1:?,wid,swp,leq", "sound", budget=400, tier=tier))
     # widening / narrowing of operands over different variable sets; for intervals: environment widening = point-wise interval widening
     J += lat3_jobs(("wid", "nar"), (1, 10) if tier == "quick" else (1, 2, 6, 10, 12, 18), tier)
     return J
@@ -534,7 +537,9 @@ def c11_jobs(tier, seed):
     for pr in BWD_PROGS:
         for mode in ("error", "error-inv", "good"):
             for d in doms:
-                J.append(bwd_job(d, pr, mode, tier))
+                j = bwd_job(d, pr, mode, tier)
+                j.soft = d not in (1, 2)  # thorough-tier extras
+                J.append(j)
     return J
 
 
@@ -559,7 +564,9 @@ def c02_jobs(tier, seed):
     for pr in BWD_PROGS:
         for (b, r, u) in settings:
             for d in ((1, 2) if tier == "quick" else (1, 2, 3, 12)):
-                J.append(bwd_job(d, pr, "fb", tier, {"bwd": b, "refine": r, "refined": u}))
+                j = bwd_job(d, pr, "fb", tier, {"bwd": b, "refine": r, "refined": u})
+                j.soft = d in (3, 12)  # thorough-tier extras: a budget overrun there is recorded, not a failure
+                J.append(j)
     # (3) checker interleaved with the top-down inter-procedural analysis (inter harness, run_checker=true)
     for pr in INTER_PROGS:
         for rec in ((0, 1) if pr in ("rec", "mutual") else (0,)):
@@ -736,7 +743,7 @@ def arr_histories(rng, n):
 def c14_jobs(tier, seed):
     J = []
     rng = random.Random(140 + seed)
-    hist = ARR_CORE + arr_histories(rng, 20 if tier == "quick" else 400)
+    hist = ARR_CORE + arr_histories(rng, 20 if tier == "quick" else 120)
     doms = [20, 21, 26, 27]
     for hi, s in enumerate(hist):
         soft = hi >= len(ARR_CORE)
@@ -765,7 +772,7 @@ PROPS["C14"] = dict(
     explanation="array_smashing<Base> and array_adaptive_domain<Base> (Base = intervals, zones) are driven by histories of array_init, strong/weak array_store with constant and symbolic indices, array_store_range, array_assign, join, widening and array_load, next to a concrete word-level array (cells = solver terms, symbolic index = a symbolic cell number); "
                 "after every load z3 decides that the concrete value read is in at(lhs) and that every exported constraint over the scalar variables (index, loaded value, two value variables) holds, and after every operation that the state is not bottom, for all stored values, initial contents and index values; every history is run under several array_adaptive parameter settings (smashable or not, smashing at non-zero offsets, small cell / size limits).",
     bounds={"quick": "arrays of 1 and 3 cells of 4 bytes; 16 curated + 20 generated histories (<= 9 operations); array_adaptive<intervals> under 5 parameter settings for the curated histories, one setting otherwise; is_strong_update only for one-cell arrays (the documented contract)",
-            "thorough": "1-4 cells, 400 generated histories, all parameter settings on both adaptive domains"},
+            "thorough": "1-4 cells, 120 generated histories, all parameter settings on both adaptive domains"},
     outside=["arrays with non-uniform element sizes (outside the documented word-level assumption)", "arrays of more than 4 cells", "Boolean arrays, arrays inside regions", "backward array operations"],
     assumptions=E2_ASSUME)
 
@@ -1001,7 +1008,7 @@ def rgn_histories(rng, n):
 def c15_jobs(tier, seed):
     J = []
     rng = random.Random(150 + seed)
-    hist = RGN_CORE + rgn_histories(rng, 40 if tier == "quick" else 600)
+    hist = RGN_CORE + rgn_histories(rng, 80 if tier == "quick" else 600)
     for hi, s in enumerate(hist):
         gen = hi >= len(RGN_CORE)
         for rb in ((1, 2, 3, 4) if tier != "quick" else ((1, 2) if not gen else (1 + (hi % 4),))):
@@ -1018,6 +1025,6 @@ PROPS["C15"] = dict(
     explanation="region_domain<Params> over four base domains is driven by histories of region_init, ref_make, ref_gep (constant and symbolic offsets, within and across regions), ref_store / ref_load of integers and of references, ref_free, ref_assume (null tests, equalities and orderings p REL q + k with constant and symbolic offsets, and their negations), ref_to_int / int_to_ref, select_ref, region_copy, join and widening, next to a concrete memory "
                 "(per region the list of (address, value) writes; objects are symbolic, pairwise distant, non-null base addresses; a reference is an address plus its allocation site); z3 decides after every load that the value read from a previously written cell is in at(lhs), after every reference load / query that a definite is_null_ref answer is right and that a reported set of allocation sites contains the actual one, "
                 "that ref_to_int covers the address, and that no operation turns a reachable state into bottom - for all stored values, base addresses, offsets and join choices.",
-    bounds={"quick": "3 reference variables, 2 integer regions + 1 region of references, 23 curated + 40 generated histories (<= 12 operations), base domains intervals / zones / flat Boolean x intervals / sign-constant, 4 region_domain_params settings on the curated histories (one setting otherwise), offsets in [-4, 32]", "thorough": "600 generated histories, every base domain and parameter setting"},
+    bounds={"quick": "3 reference variables, 2 integer regions + 1 region of references, 28 curated + 80 generated histories (<= 12 operations), base domains intervals / zones / flat Boolean x intervals / sign-constant, 4 region_domain_params settings on the curated histories (one setting otherwise), offsets in [-4, 32]", "thorough": "600 generated histories, every base domain and parameter setting"},
     outside=["reads of never-written cells (the path ends)", "region_cast and unknown-typed regions", "Boolean and array regions", "tag queries (get_tags) and the deallocation intrinsics", "objects closer than 64 bytes / offsets beyond 32 (out-of-bounds pointer arithmetic)"],
     assumptions=E2_ASSUME + ["concrete memory model: word-level addressing, a store through reference p in region R writes cell (R, address(p)); distinct allocations have distinct non-null addresses"])
